@@ -89,16 +89,25 @@ PROPS = {
     "C20": {
         "proof_modules": ["GrolProofs.Props.C20"],
         "theorems": ["Grol.Trie.C20.contains_iff", "Grol.Trie.C20.prefixAll_spec", "Grol.Trie.C20.complete_sound",
-                     "Grol.Trie.allBytes_spec", "Grol.Trie.wf_build", "Grol.Trie.contains_foldl_insert"],
+                     "Grol.Trie.C20.complete_sound_at_end", "Grol.Trie.allBytes_spec", "Grol.Trie.wf_build", "Grol.Trie.contains_foldl_insert"],
         "suites": ["trie"],
         "rule": "trie suite: every case is an insertion history (ordered list of words) plus one query; exhaustive families = all "
                 "ordered sequences of <=4 (quick) / <=5 (thorough) distinct words from the words of length <=2 over {a,b} (and {a,0x00,0xff}, "
                 "{a,0xff}, {a,b,0xff}) incl. the empty word x all queries of length <=3; all subsets of the 14 words of length <=3 over {a,b} "
-                "in sorted and reverse order; random histories of up to 7 words of length <=6 with forced prefix/extension relations. "
+                "in sorted and reverse order; random histories of up to 7 words of length <=6 with forced prefix/extension relations; "
+                "the completion callback with the cursor INSIDE the line (all histories of <=2 words of length <=2 over {a,b} x all lines of length <=3 x every "
+                "cursor position, 4000/60000 random ones: the text after the cursor must come back unchanged); SESSIONS (1500/20000): the words are not given but "
+                "recorded by the real interpreter (eval.State.RegisterTrie + object.record on every new top-level binding) while it evaluates 1-12 inputs drawn from "
+                "value/function/lambda/named-function definitions, updates that change the kind, del, copies, failing definitions, index and dot assignments, loop "
+                "variables, assignments inside calls, ++, := of fresh names, over names sharing prefixes with each other and with pre-seeded identifiers; the harness "
+                "reports the top-level store after every input, the driver recomputes the words (new name => name + '(' or ' ', and name) and additionally checks that "
+                "everything a prefix query returns is `info `, or name / name( / name<space> of a name bound at top level at some point, and that every name bound now is a member. "
                 "non-trivial = history inserts at least one word; distinct = distinct (history, query) line.",
         "trusted_base": COMMON_TB + ["modelled: trie/trie.go (Insert, Prefix, Contains, IsValid, PrefixAll, All, AllBytes), "
-                                     "repl/completion.go autoCompleteCallback (returned line only; terminal output not modelled)",
-                                     "not modelled: object.record / RegisterTrie (which words the REPL inserts)"],
+                                     "repl/completion.go autoCompleteCallback (returned line and cursor for any cursor position <= len(line); terminal output not modelled); "
+                                     "object.record / RegisterTrie as a function of the top-level stores observed between inputs (driver only, no theorem)",
+                                     "not modelled: `:=` on a name that exists records it again (observed: abs:=2 adds `abs ` next to `abs(`; the session generator uses := "
+                                     "on fresh names only); the words Interactive() inserts for keywords, builtins and extensions (repl.go, needs a terminal)"],
         "assumptions": ["Go pointer sharing of the end marker is unobservable (Insert never descends into it; shown by the model's case split and exercised by the suite)"],
     },
     "C16": {
